@@ -203,6 +203,32 @@ func (r *nnsRun) opTransfer(w who, delta int64, name string, to util.Uint160) *c
 	return o
 }
 
+// opTransferAlias sends a transfer whose token id is another spelling of a name (trailing root dot, upper
+// case). No such token exists: the call must either be refused without any change, or - if an
+// implementation chose to canonicalise ids - be a complete, consistent transfer of the name itself,
+// announced under the name. Everything in between shows up in the read API compared after the step.
+func (r *nnsRun) opTransferAlias(w who, delta int64, name, spelled string, to util.Uint160) *chainkit.Outcome {
+	t := int64(r.c.Now()) + max64(delta, 1)
+	o := r.invoke(w, delta, "transfer", to, spelled, nil)
+	what := fmt.Sprintf("transfer(%q -> %s) by %s at t=%d", spelled, r.names[to], w.desc, t)
+	r.h.Op("%s -> %s", what, o)
+	r.h.Mark("transfer-with-another-spelling-of-the-id")
+	n, exists := r.m.names[name]
+	if b, ok := o.Bool(); !o.Halt || !ok || !b {
+		r.expectTransfers(what, o, nil)
+		return o
+	}
+	if !exists || n.tld || t >= n.exp || !r.witnesses(w).has(n.owner) {
+		r.fail("%s succeeded although %s is not a live name of the signer", what, name)
+	}
+	r.expectTransfers(what, o, []string{fmt.Sprintf("%x>%x:%s", n.owner, to.BytesBE(), name)})
+	if string(n.owner) != string(to.BytesBE()) {
+		n.owner = to.BytesBE()
+		n.admin = nil
+	}
+	return o
+}
+
 const tenYearsMs = 10 * msPerYear
 
 // opRenew renews at now+delta.
